@@ -31,7 +31,7 @@ def write(x, p):
     for name, cls, lo, hi in REGIONS:
         m = x.mseq(name, hi - lo, hi - lo)
         olds[name] = hx.snap(m)
-        setattr(g, name, hx.bare(cls, _data=m, _version=8))
+        setattr(g, name, hx.made(cls, m))
     start = x.int('start', 0, p['max'])
     data = x.mseq('data', 0, p['max'], mutable=False)
     n = len(data)
